@@ -282,7 +282,7 @@ def run(tier):
 
     bt = threading.Thread(target=_build)
     bt.start()
-    pool = ThreadPoolExecutor(max_workers=vlib.NCPU + 8)
+    pool = ThreadPoolExecutor(max_workers=max(2, vlib.NCPU))   # vlib.NCPU honours the VERIF_JOBS throttle
     try:
         # 1. dump runs (workers=1 each, invariants checked, side by side), then the larger models
         dump_f = [pool.submit(_job_dump, c) for c, _ in dumps]
